@@ -581,18 +581,23 @@ class ForgetMark(MaskMixin, Strategy):
 class _Unary(MaskMixin, DisjointUnionStrategy):
     """Equivalence strategies: one child with exactly the same words."""
 
-    def __init__(self, mask=None, lazy=False, inferrable=True, possibly_empty=False, two_way=True, ignore_parent=True):
+    def __init__(self, mask=None, lazy=False, inferrable=True, possibly_empty=False, two_way=True, ignore_parent=True, reversible=True):
         super().__init__(ignore_parent=ignore_parent, inferrable=inferrable, possibly_empty=possibly_empty, workable=True)
         self.mask = mask
         self.lazy = lazy
         self.two_way = two_way
+        # a strategy may decline to be reversed (conservative, always legal) and still be two-way
+        self.reversible = reversible
 
     def _args_repr(self):
-        return ("" if self.two_way else "one_way") + ("" if self.ignore_parent else "+keep_parent")
+        return ("" if self.two_way else "one_way") + ("" if self.ignore_parent else "+keep_parent") + ("" if self.reversible else "+irreversible")
 
     def is_two_way(self, comb_class):
         # declaring a rule one-way is always allowed (conservative)
         return self.two_way
+
+    def is_reversible(self, comb_class):
+        return self.reversible
 
     def child(self, c):
         raise NotImplementedError
@@ -621,11 +626,12 @@ class _Unary(MaskMixin, DisjointUnionStrategy):
     def to_jsonable(self):
         d = self._base_json()
         d["two_way"] = self.two_way
+        d["reversible"] = self.reversible
         return d
 
     @classmethod
     def from_dict(cls, d):
-        return cls(d.get("mask"), d.get("lazy", False), two_way=d.get("two_way", True), ignore_parent=d.get("ignore_parent", True))
+        return cls(d.get("mask"), d.get("lazy", False), two_way=d.get("two_way", True), ignore_parent=d.get("ignore_parent", True), reversible=d.get("reversible", True))
 
 
 class ReducePatterns(_Unary):
@@ -920,7 +926,10 @@ class ExpandFactory(StrategyFactory):
     """Yields a mix of strategies and ready-made rules; optionally the expansion
     rule of another class (foreign parent) and duplicate emissions."""
 
-    def __init__(self, ds=(1,), as_rules=False, foreign=None, dup=False, mask=None, foreign_first=False):
+    def __init__(self, ds=(1,), as_rules=False, foreign=None, dup=False, mask=None, foreign_first=False, with_remove_front=False):
+        # with_remove_front: the factory also yields RemoveFront, before its expansions; it does not apply
+        # to classes with an empty prefix, so an inapplicable strategy precedes the applicable ones
+        self.with_remove_front = with_remove_front
         self.ds = tuple(ds)
         self.as_rules = as_rules
         self.foreign = foreign  # None | 'parent' | 'reduced'
@@ -929,7 +938,8 @@ class ExpandFactory(StrategyFactory):
         self.foreign_first = foreign_first
 
     def strategies(self):
-        return [Expand(d, mask=self.mask) for d in self.ds]
+        front = [RemoveFront()] if self.with_remove_front else []
+        return front + [Expand(d, mask=self.mask) for d in self.ds]
 
     def __call__(self, comb_class):
         CALL_LOG.append((repr(self), comb_class.key()))
@@ -963,19 +973,19 @@ class ExpandFactory(StrategyFactory):
                     yield st(other)
 
     def __repr__(self):
-        return f"ExpandFactory(ds={self.ds},as_rules={self.as_rules},foreign={self.foreign},dup={self.dup},mask={self.mask},ff={self.foreign_first})"
+        return f"ExpandFactory(ds={self.ds},as_rules={self.as_rules},foreign={self.foreign},dup={self.dup},mask={self.mask},ff={self.foreign_first},rf={self.with_remove_front})"
 
     def __str__(self):
         return repr(self)
 
     def to_jsonable(self):
         d = super().to_jsonable()
-        d.update(ds=list(self.ds), as_rules=self.as_rules, foreign=self.foreign, dup=self.dup, mask=self.mask, foreign_first=self.foreign_first)
+        d.update(ds=list(self.ds), as_rules=self.as_rules, foreign=self.foreign, dup=self.dup, mask=self.mask, foreign_first=self.foreign_first, with_remove_front=self.with_remove_front)
         return d
 
     @classmethod
     def from_dict(cls, d):
-        return cls(d["ds"], d["as_rules"], d["foreign"], d["dup"], d["mask"], d.get("foreign_first", False))
+        return cls(d["ds"], d["as_rules"], d["foreign"], d["dup"], d["mask"], d.get("foreign_first", False), d.get("with_remove_front", False))
 
 
 # ---------------------------------------------------------------------------
@@ -987,9 +997,9 @@ _STRATS = {
     "SplitZeros": lambda s: SplitZeros(_mask(s), s.get("lazy", False)),
     "ForgetMark": lambda s: ForgetMark(_mask(s), s.get("lazy", False)),
     "RemoveFront": lambda s: RemoveFront(_mask(s), s.get("lazy", False), s.get("split", False), s.get("merge", False)),
-    "ReducePatterns": lambda s: ReducePatterns(_mask(s), s.get("lazy", False), two_way=s.get("two_way", True), ignore_parent=s.get("ignore_parent", True)),
-    "DropDeadStatistic": lambda s: DropDeadStatistic(_mask(s), s.get("lazy", False), two_way=s.get("two_way", True), ignore_parent=s.get("ignore_parent", True)),
-    "MergeDuplicateStatistics": lambda s: MergeDuplicateStatistics(_mask(s), s.get("lazy", False), two_way=s.get("two_way", True), ignore_parent=s.get("ignore_parent", True)),
+    "ReducePatterns": lambda s: ReducePatterns(_mask(s), s.get("lazy", False), two_way=s.get("two_way", True), ignore_parent=s.get("ignore_parent", True), reversible=s.get("reversible", True)),
+    "DropDeadStatistic": lambda s: DropDeadStatistic(_mask(s), s.get("lazy", False), two_way=s.get("two_way", True), ignore_parent=s.get("ignore_parent", True), reversible=s.get("reversible", True)),
+    "MergeDuplicateStatistics": lambda s: MergeDuplicateStatistics(_mask(s), s.get("lazy", False), two_way=s.get("two_way", True), ignore_parent=s.get("ignore_parent", True), reversible=s.get("reversible", True)),
     "TrackLetter": lambda s: TrackLetter(s.get("letter", 0), _mask(s), s.get("lazy", False), s.get("two_way", True), s.get("ignore_parent", True)),
     "Rename": lambda s: Rename(tuple(s["perm"]), _mask(s), s.get("lazy", False), s.get("two_way", False), s.get("ignore_parent", False)),
     "LetterPermutation": lambda s: LetterPermutation(tuple(s["perm"]), _mask(s), s.get("lazy", False)),
@@ -998,7 +1008,7 @@ _STRATS = {
     "FiatVerified": lambda s: FiatVerified(
         [_tup(k) for k in s.get("keys", [])], s.get("salt", 0), s.get("pct", 0), s.get("pack_spec"), s.get("ignore_parent", False)
     ),
-    "ExpandFactory": lambda s: ExpandFactory(tuple(s.get("ds", (1,))), s.get("as_rules", False), s.get("foreign"), s.get("dup", False), _mask(s), s.get("foreign_first", False)),
+    "ExpandFactory": lambda s: ExpandFactory(tuple(s.get("ds", (1,))), s.get("as_rules", False), s.get("foreign"), s.get("dup", False), _mask(s), s.get("foreign_first", False), s.get("with_remove_front", False)),
 }
 
 
